@@ -1,12 +1,13 @@
 (* C08 obligation: trial division decides primality; primepi counts the primes up to n for
-   0 <= n < 2^32 (0 for negative n); primorial multiplies them. *)
+   0 <= n < 2^32 (0 for negative n) and rejects larger arguments; primorial multiplies them. *)
 From Coq Require Import ZArith List.
 From SE Require Import C08.FuncModel C08.ExactProofs.
 Local Open Scope Z_scope.
 Theorem C08_primepi_exact :
   (forall p, is_prime p = true <-> (2 <= p /\ forall e, 2 <= e -> e * e <= p -> p mod e <> 0))
-  /\ (forall n, (n < 0 -> primepi_int n = 0)
-               /\ (0 <= n < 4294967296 -> primepi_int n = Z.of_nat (length (primes_upto n))))
+  /\ (forall n, (n < 0 -> primepi_int n = PPOk 0)
+               /\ (0 <= n < 4294967296 -> primepi_int n = PPOk (Z.of_nat (length (primes_upto n))))
+               /\ (4294967296 <= n -> primepi_int n = PPTooLarge \/ primepi_int n = PPOverflow))
   /\ (forall n, (0 < n -> primorial_int n = Some (fold_left Z.mul (primes_upto n) 1))
                /\ (n <= 0 -> primorial_int n = None)).
 Proof. split; [ exact is_prime_spec | split; [ exact primepi_exact | exact primorial_exact ] ]. Qed.
